@@ -424,9 +424,24 @@ class Ceremony:
             if n not in nodes:
                 nodes.append(n)
         order = [nodes[i] for i in ch.perm('pk_order', len(nodes))]
-        # the plain Transaction (WalletTransaction.sign would add the wallet's own keys at the first call)
-        ok, plain = self.quiet(lambda: copy.deepcopy(c.t.to_transaction()))
+        # a plain Transaction whose inputs know only public keys, as an offline signer would build it from the
+        # wallet's unsigned transaction (WalletTransaction.sign would add the wallet's own keys at the first call,
+        # and inputs taken over from the wallet hold its private key objects)
+        src = c.t
+
+        def build():
+            T = self.BT.Transaction(network=self.network, witness_type='legacy' if self.wt == 'legacy' else 'segwit',
+                                    locktime=src.locktime, version=src.version_int)
+            for i in src.inputs:
+                n_ = by_addr[i.address]
+                T.add_input(prev_txid=i.prev_txid, output_n=i.output_n_int, keys=[n_.pub.hex()], value=i.value,
+                            sequence=i.sequence, witness_type=self.wt, address=i.address)
+            for o in src.outputs:
+                T.add_output(o.value, lock_script=bytes(o.lock_script))
+            return T
+        ok, plain = self.quiet(build)
         if not ok:
+            self.w.probe('plain_transaction_not_built:%s' % type(plain).__name__)
             return self.op_sign()
         c = Copy(plain, c.holder, set(), via=c.via + ('plain',))
         self.copies.append(c)
